@@ -62,6 +62,13 @@ func VerifC03CanAppend() {
 	}
 	e, id, genuine := vstub.AuthorEntry(vstub.NdChoice("author", vstub.AuthorKinds))
 	ac := &orbitDBAccessController{kvStore: kv}
+	if vstub.NdChoice("after-genuine", 2) == 1 {
+		// the controller has already decided a genuine entry of "a" (what it learnt
+		// from it must not make a later forgery acceptable)
+		g, _, _ := vstub.AuthorEntry(0)
+		_ = ac.CanAppend(g, vstub.NewProvider(), nil)
+		vstub.Cover("after-genuine")
+	}
 	err := ac.CanAppend(e, vstub.NewProvider(), nil)
 	want := (member(write, id) || member(admin, id)) && genuine
 	vstub.Cover("decided")
